@@ -412,3 +412,207 @@ Proof.
   split; [intros ->; apply none_identity|]. split; [apply inside_unaltered|].
   split; [apply within | intros ->; apply truncate_clip].
 Qed.
+
+(* ==== repeated mirroring between two finite bounds ================================================= *)
+(* n as a rational *)
+
+Definition nQ (n : nat) : Q := inject_Z (Z.of_nat n).
+Lemma nQ_S n : nQ (S n) == nQ n + 1.
+Proof. unfold nQ. rewrite Nat2Z.inj_succ, <- Z.add_1_r, inject_Z_plus. reflexivity. Qed.
+Lemma nQ_0 : nQ 0 == 0.
+Proof. reflexivity. Qed.
+Lemma nQ_nonneg n : 0 <= nQ n.
+Proof. unfold nQ. change 0 with (inject_Z 0). rewrite <- Zle_Qle. lia. Qed.
+
+(* one pass of the first loop on a value below the lower bound *)
+Lemma mstep_lo_reflect l u v : v < l -> l - v <= u - l -> mstep_lo true (Fin l) (Fin u) v = 2 * l - v.
+Proof.
+  intros H1 H2. unfold mstep_lo, mirror. rewrite (proj2 (below_true_fin v l) H1). cbn [andb refl].
+  assert (E : above (2 * l - v) (Fin u) = false) by (apply above_false_iff; cbn; lra).
+  rewrite E. reflexivity.
+Qed.
+Lemma mstep_lo_shift l u v : l <= u -> u - l < l - v -> mstep_lo true (Fin l) (Fin u) v = 2 * u - (2 * l - v).
+Proof.
+  intros H0 H1. unfold mstep_lo, mirror.
+  assert (Hb : v < l) by lra. rewrite (proj2 (below_true_fin v l) Hb). cbn [andb refl].
+  assert (E : above (2 * l - v) (Fin u) = true) by (apply above_true_fin; lra).
+  rewrite E. reflexivity.
+Qed.
+Lemma mstep_hi_reflect l u v : u < v -> v - u <= u - l -> mstep_hi true (Fin l) (Fin u) v = 2 * u - v.
+Proof.
+  intros H1 H2. unfold mstep_hi, mirror. rewrite (proj2 (above_true_fin v u) H1). cbn [andb refl].
+  assert (E : below (2 * u - v) (Fin l) = false) by (apply below_false_iff; cbn; lra).
+  rewrite E. reflexivity.
+Qed.
+Lemma mstep_hi_shift l u v : l <= u -> u - l < v - u -> mstep_hi true (Fin l) (Fin u) v = 2 * l - (2 * u - v).
+Proof.
+  intros H0 H1. unfold mstep_hi, mirror.
+  assert (Hb : u < v) by lra. rewrite (proj2 (above_true_fin v u) Hb). cbn [andb refl].
+  assert (E : below (2 * u - v) (Fin l) = true) by (apply below_true_fin; lra).
+  rewrite E. reflexivity.
+Qed.
+
+(* the first loop: a value that starts 2nw + e below the lower bound (0 < e <= 2w, n < rep, w = u - l) is
+   shifted up by whole periods 2w and reflected once; afterwards it is inside and stays *)
+Lemma iter_lo_closed l u : l <= u -> forall n rep v, (n < rep)%nat ->
+  2 * nQ n * (u - l) < l - v -> l - v <= 2 * (nQ n + 1) * (u - l) ->
+  exists z, iter rep (mstep_lo true (Fin l) (Fin u)) v = z /\ inside (Fin l) (Fin u) z /\
+    (l - v - 2 * nQ n * (u - l) <= u - l -> z == 2 * l - v - 2 * nQ n * (u - l)) /\
+    (u - l < l - v - 2 * nQ n * (u - l) -> z == v + 2 * (nQ n + 1) * (u - l)).
+Proof.
+  intros Hlu. induction n as [|n IH]; intros rep v Hn Hlo Hhi; (destruct rep as [|r]; [lia|]); cbn [iter].
+  - change (nQ 0) with 0 in *.
+    destruct (Qlt_le_dec (u - l) (l - v)) as [Hs|Hr].
+    + rewrite (mstep_lo_shift l u v Hlu Hs).
+      assert (Hin : inside (Fin l) (Fin u) (2 * u - (2 * l - v))) by (split; cbn; lra).
+      exists (2 * u - (2 * l - v)). split; [apply iter_fix, mstep_lo_inside, Hin|]. split; [exact Hin|].
+      split; intros H; [lra | ring_simplify; lra].
+    + assert (Hb : v < l) by lra. rewrite (mstep_lo_reflect l u v Hb Hr).
+      assert (Hin : inside (Fin l) (Fin u) (2 * l - v)) by (split; cbn; lra).
+      exists (2 * l - v). split; [apply iter_fix, mstep_lo_inside, Hin|]. split; [exact Hin|].
+      split; intros H; [ring | lra].
+  - pose proof (nQ_nonneg n) as Hnn. rewrite nQ_S in Hlo, Hhi.
+    assert (Hw : 0 <= (nQ n) * (u - l)) by (apply Qmult_le_0_compat; lra).
+    assert (Hs : u - l < l - v) by lra.
+    rewrite (mstep_lo_shift l u v Hlu Hs).
+    destruct (IH r (2 * u - (2 * l - v))) as [z [Hz [Hin [Ha Hb]]]]; [lia | lra | lra |].
+    exists z. split; [exact Hz|]. split; [exact Hin|].
+    split; intros H; rewrite nQ_S in H |- *; [rewrite Ha by lra | rewrite Hb by lra]; ring.
+Qed.
+
+(* ... and one that starts more than 2*rep*w below stays below *)
+Lemma iter_lo_far l u : l <= u -> forall rep v, 2 * nQ rep * (u - l) < l - v ->
+  iter rep (mstep_lo true (Fin l) (Fin u)) v < l.
+Proof.
+  intros Hlu. induction rep as [|r IH]; intros v H; cbn [iter].
+  - rewrite nQ_0 in H. lra.
+  - pose proof (nQ_nonneg r) as Hnn. rewrite nQ_S in H.
+    assert (Hw : 0 <= (nQ r) * (u - l)) by (apply Qmult_le_0_compat; lra).
+    assert (Hs : u - l < l - v) by lra.
+    rewrite (mstep_lo_shift l u v Hlu Hs). apply IH. lra.
+Qed.
+
+Lemma iter_hi_closed l u : l <= u -> forall n rep v, (n < rep)%nat ->
+  2 * nQ n * (u - l) < v - u -> v - u <= 2 * (nQ n + 1) * (u - l) ->
+  exists z, iter rep (mstep_hi true (Fin l) (Fin u)) v = z /\ inside (Fin l) (Fin u) z /\
+    (v - u - 2 * nQ n * (u - l) <= u - l -> z == 2 * u - v + 2 * nQ n * (u - l)) /\
+    (u - l < v - u - 2 * nQ n * (u - l) -> z == v - 2 * (nQ n + 1) * (u - l)).
+Proof.
+  intros Hlu. induction n as [|n IH]; intros rep v Hn Hlo Hhi; (destruct rep as [|r]; [lia|]); cbn [iter].
+  - change (nQ 0) with 0 in *.
+    destruct (Qlt_le_dec (u - l) (v - u)) as [Hs|Hr].
+    + rewrite (mstep_hi_shift l u v Hlu Hs).
+      assert (Hin : inside (Fin l) (Fin u) (2 * l - (2 * u - v))) by (split; cbn; lra).
+      exists (2 * l - (2 * u - v)). split; [apply iter_fix, mstep_hi_inside, Hin|]. split; [exact Hin|].
+      split; intros H; [lra | ring_simplify; lra].
+    + assert (Hb : u < v) by lra. rewrite (mstep_hi_reflect l u v Hb Hr).
+      assert (Hin : inside (Fin l) (Fin u) (2 * u - v)) by (split; cbn; lra).
+      exists (2 * u - v). split; [apply iter_fix, mstep_hi_inside, Hin|]. split; [exact Hin|].
+      split; intros H; [ring | lra].
+  - pose proof (nQ_nonneg n) as Hnn. rewrite nQ_S in Hlo, Hhi.
+    assert (Hw : 0 <= (nQ n) * (u - l)) by (apply Qmult_le_0_compat; lra).
+    assert (Hs : u - l < v - u) by lra.
+    rewrite (mstep_hi_shift l u v Hlu Hs).
+    destruct (IH r (2 * l - (2 * u - v))) as [z [Hz [Hin [Ha Hb]]]]; [lia | lra | lra |].
+    exists z. split; [exact Hz|]. split; [exact Hin|].
+    split; intros H; rewrite nQ_S in H |- *; [rewrite Ha by lra | rewrite Hb by lra]; ring.
+Qed.
+Lemma iter_hi_far l u : l <= u -> forall rep v, 2 * nQ rep * (u - l) < v - u ->
+  u < iter rep (mstep_hi true (Fin l) (Fin u)) v.
+Proof.
+  intros Hlu. induction rep as [|r IH]; intros v H; cbn [iter].
+  - rewrite nQ_0 in H. lra.
+  - pose proof (nQ_nonneg r) as Hnn. rewrite nQ_S in H.
+    assert (Hw : 0 <= (nQ r) * (u - l)) by (apply Qmult_le_0_compat; lra).
+    assert (Hs : u - l < v - u) by lra.
+    rewrite (mstep_hi_shift l u v Hlu Hs). apply IH. lra.
+Qed.
+
+(* ---- MIRROR_BOTH between two finite bounds: the complete closed form ----------------------------- *)
+Lemma mirror_lower_setup rep l u y : l <= u -> y < l ->
+  apply_bounds_gen rep bt_mirror (Fin l) (Fin u) y = clip (Fin l) (Fin u) (iter rep (mstep_lo true (Fin l) (Fin u)) y).
+Proof.
+  intros Hlu Hy. unfold apply_bounds_gen. rewrite Z.eqb_refl, bt_mirror_not_none. cbn [andb].
+  rewrite (proj2 (below_true_fin y l) Hy).
+  assert (Hab : above y (Fin u) = false) by (apply above_false_iff; cbn; lra). rewrite Hab.
+  rewrite (iter_id rep _ _ (mstep_hi_off (Fin l) (Fin u))). reflexivity.
+Qed.
+Lemma mirror_upper_setup rep l u y : l <= u -> u < y ->
+  apply_bounds_gen rep bt_mirror (Fin l) (Fin u) y = clip (Fin l) (Fin u) (iter rep (mstep_hi true (Fin l) (Fin u)) y).
+Proof.
+  intros Hlu Hy. unfold apply_bounds_gen. rewrite Z.eqb_refl, bt_mirror_not_none. cbn [andb].
+  rewrite (proj2 (above_true_fin y u) Hy).
+  assert (Hbe : below y (Fin l) = false) by (apply below_false_iff; cbn; lra). rewrite Hbe.
+  rewrite (iter_id rep _ _ (mstep_lo_off (Fin l) (Fin u))). reflexivity.
+Qed.
+
+Theorem mirror_repeated_lower rep l u y n : l <= u -> (n < rep)%nat ->
+  2 * nQ n * (u - l) < l - y -> l - y <= 2 * (nQ n + 1) * (u - l) ->
+  (l - y - 2 * nQ n * (u - l) <= u - l ->
+     apply_bounds_gen rep bt_mirror (Fin l) (Fin u) y == 2 * l - y - 2 * nQ n * (u - l)) /\
+  (u - l < l - y - 2 * nQ n * (u - l) ->
+     apply_bounds_gen rep bt_mirror (Fin l) (Fin u) y == y + 2 * (nQ n + 1) * (u - l)).
+Proof.
+  intros Hlu Hn Hlo Hhi. pose proof (nQ_nonneg n) as Hnn.
+  assert (Hw : 0 <= (nQ n) * (u - l)) by (apply Qmult_le_0_compat; lra).
+  assert (Hy : y < l) by lra. rewrite (mirror_lower_setup rep l u y Hlu Hy).
+  destruct (iter_lo_closed l u Hlu n rep y Hn Hlo Hhi) as [z [-> [Hin [Ha Hb]]]].
+  rewrite (clip_inside _ _ _ Hin). split; assumption.
+Qed.
+Theorem mirror_far_lower rep l u y : l <= u -> 2 * nQ rep * (u - l) < l - y ->
+  apply_bounds_gen rep bt_mirror (Fin l) (Fin u) y = l.
+Proof.
+  intros Hlu H. pose proof (nQ_nonneg rep) as Hnn.
+  assert (Hw : 0 <= (nQ rep) * (u - l)) by (apply Qmult_le_0_compat; lra).
+  assert (Hy : y < l) by lra. rewrite (mirror_lower_setup rep l u y Hlu Hy).
+  apply clip_below; [cbn; apply Qleb_le, Hlu | apply iter_lo_far; assumption].
+Qed.
+Theorem mirror_repeated_upper rep l u y n : l <= u -> (n < rep)%nat ->
+  2 * nQ n * (u - l) < y - u -> y - u <= 2 * (nQ n + 1) * (u - l) ->
+  (y - u - 2 * nQ n * (u - l) <= u - l ->
+     apply_bounds_gen rep bt_mirror (Fin l) (Fin u) y == 2 * u - y + 2 * nQ n * (u - l)) /\
+  (u - l < y - u - 2 * nQ n * (u - l) ->
+     apply_bounds_gen rep bt_mirror (Fin l) (Fin u) y == y - 2 * (nQ n + 1) * (u - l)).
+Proof.
+  intros Hlu Hn Hlo Hhi. pose proof (nQ_nonneg n) as Hnn.
+  assert (Hw : 0 <= (nQ n) * (u - l)) by (apply Qmult_le_0_compat; lra).
+  assert (Hy : u < y) by lra. rewrite (mirror_upper_setup rep l u y Hlu Hy).
+  destruct (iter_hi_closed l u Hlu n rep y Hn Hlo Hhi) as [z [-> [Hin [Ha Hb]]]].
+  rewrite (clip_inside _ _ _ Hin). split; assumption.
+Qed.
+Theorem mirror_far_upper rep l u y : l <= u -> 2 * nQ rep * (u - l) < y - u ->
+  apply_bounds_gen rep bt_mirror (Fin l) (Fin u) y = u.
+Proof.
+  intros Hlu H. pose proof (nQ_nonneg rep) as Hnn.
+  assert (Hw : 0 <= (nQ rep) * (u - l)) by (apply Qmult_le_0_compat; lra).
+  assert (Hy : u < y) by lra. rewrite (mirror_upper_setup rep l u y Hlu Hy).
+  apply clip_above; [cbn; apply Qleb_le, Hlu | apply iter_hi_far; assumption].
+Qed.
+
+(* ---- magnitudes under a VariableScaler ----------------------------------------------------------- *)
+(* in the user's units (multiply the stored optimizer-domain magnitude by the scale) the magnitude is the configured
+   absolute value, or the configured fraction of the user's own bound range *)
+Theorem magnitude_scaled_user p l u s o m : 0 < s ->
+  (Z.eqb p pt_relative = true -> efinite l && efinite u = true) ->
+  magnitude_1s p (eb_to_opt s o l) (eb_to_opt s o u) s m * s == magnitude_1 p l u m.
+Proof.
+  intros Hs Hf. unfold magnitude_1s, magnitude_1. destruct (Z.eqb p pt_relative).
+  - specialize (Hf eq_refl). destruct l as [|lq|], u as [|uq|]; try discriminate. cbn. unfold to_opt1. field. lra.
+  - field. lra.
+Qed.
+(* the value before boundary handling, mapped back to the user domain, is x + magnitude * sample in user units *)
+Theorem scaled_pre_value p l u s o m x sv : 0 < s ->
+  (Z.eqb p pt_relative = true -> efinite l && efinite u = true) ->
+  from_opt1 s o (to_opt1 s o x + magnitude_1s p (eb_to_opt s o l) (eb_to_opt s o u) s m * sv)
+  == x + magnitude_1 p l u m * sv.
+Proof.
+  intros Hs Hf. rewrite <- (magnitude_scaled_user p l u s o m Hs Hf). unfold from_opt1, to_opt1. field. lra.
+Qed.
+Lemma map3_nth {A B C D} (f : A -> B -> C -> D) a b c i x y z :
+  nth_error a i = Some x -> nth_error b i = Some y -> nth_error c i = Some z ->
+  nth_error (map3 f a b c) i = Some (f x y z).
+Proof.
+  revert b c i. induction a as [|x0 a IH]; intros b c i Ha Hb Hc; [destruct i; discriminate|].
+  destruct b as [|y0 b]; [destruct i; discriminate|]. destruct c as [|z0 c]; [destruct i; discriminate|].
+  destruct i as [|i]; cbn in *; [congruence | apply IH; assumption].
+Qed.
